@@ -68,7 +68,7 @@ func TestC17(t *testing.T) {
 		if err != nil {
 			rt.Fatalf("INCONCLUSIVE pgsim cannot create the Postgres schema: %v", err)
 		}
-		lite, litedb := newSqlite(pl, &Hooks{FailAt: -1})
+		lite, litedb := newSqlite(pl, &core.Hooks{FailAt: -1})
 		obsPg, _ := sql.Open("sqlite3", ps)
 		obsLite, _ := sql.Open("sqlite3", pl)
 		defer func() {
